@@ -27,7 +27,7 @@ def run_battery(fq, tier, seed):
     rnd = random.Random(seed)
     b = batteries.REG[bname](tier, rnd)
     fn = rt.resolve(fq)
-    n = ok = skipped = 0
+    n = ok = skipped = ntimeouts = 0
     failures = []
     nontrivial = set()
     t0 = time.time()
@@ -41,6 +41,12 @@ def run_battery(fq, tier, seed):
             continue
         n += 1
         nontrivial.add(r.get("observed"))
+        if r.get("timeout"):
+            ntimeouts += 1
+            if ntimeouts >= 3:
+                failures.append({"args": rt.jsonable(list(args)), "kwargs": rt.jsonable(kwargs),
+                                 "failures": r["failures"], "observed": r["observed"]})
+                break
         if r["status"] == "fail":
             if len(failures) < 8:
                 failures.append({"args": rt.jsonable(list(args)), "kwargs": rt.jsonable(kwargs),
@@ -90,6 +96,44 @@ def main(argv):
             res = mod.run(tier, seed)
         except Exception:
             res = {"property": pid, "error": traceback.format_exc()}
+        with open(out, "w") as f:
+            json.dump(res, f)
+        return 0
+    if mode == "findings":
+        # replay the witnesses of the known findings of one property on the real code
+        out, pid = argv[2], argv[3]
+        with open(os.path.join(os.path.dirname(HERE), "known_findings.json")) as f:
+            kf = json.load(f)
+        res = []
+        import inspect
+        for k in kf.get("findings", []):
+            if k.get("property") != pid or not k.get("clause"):
+                continue
+            try:
+                if k.get("witness_code"):
+                    ns = dict(rt.SPEC_NS)
+                    exec(k["witness_code"], ns)
+                    ok = bool(ns.get("holds"))
+                    observed = rt.short(ns.get("observed"))
+                else:
+                    fn = rt.resolve(k["function"])
+                    args = [rt.unjson(a) for a in k.get("args", [])]
+                    ba = inspect.signature(fn).bind(*args)
+                    ba.apply_defaults()
+                    env = dict(ba.arguments)
+                    try:
+                        env["result"] = fn(*args)
+                        env["raised"] = None
+                        observed = rt.short(env["result"])
+                    except Exception as e:  # noqa
+                        env["result"] = None
+                        env["raised"] = type(e).__name__
+                        observed = "raised %s" % type(e).__name__
+                    ok = bool(rt.ev(k["clause"], env))
+            except Exception as e:
+                ok, observed = False, "witness not evaluable: %r" % (e,)
+            res.append({"id": k["id"], "function": k.get("function"), "reproduces": not ok, "observed": observed,
+                        "what": k.get("what")})
         with open(out, "w") as f:
             json.dump(res, f)
         return 0
